@@ -1318,6 +1318,11 @@ class Interp:
                 res.meta["identity_conv_of"] = (so.meta.get("identity_conv_of") or self.sym_of(src)) if so is not None else (src if isinstance(src, Sym) and src.tag == "param" else None)
             elif any(g.ifs for g in e.generators):
                 res.meta["filtered"] = pyfacts.where(fr.func, e)
+            elif len(e.generators) == 1 and isinstance(e.generators[0].target, ast.Name):
+                # [f(x) for x in xs]: one element per element of xs, in order (an order-preserving elementwise image)
+                so = self.obj(self.eval(e.generators[0].iter, sub))
+                if so is not None and so.kind in ("list", "tuple"):
+                    res.meta["elementwise_of"] = so.meta.get("elementwise_of", so.oid)
             # [fn(x) for x in text.split(sep)]: element i is fn(field i)
             if len(e.generators) == 1 and not e.generators[0].ifs and isinstance(e.generators[0].target, ast.Name) and \
                     isinstance(e.elt, ast.Call) and isinstance(e.elt.func, ast.Name) and len(e.elt.args) == 1 and not e.elt.keywords and \
